@@ -73,6 +73,8 @@ type PACEState struct {
 	GrindPKDHY    int                                // chip agreement public key Y
 	GrindMaxSteps int                                // default 400000
 	Deviate       func(step int, resp []byte) []byte // replaces the data field of one response
+	// LastTerminalKey is the public key the terminal sent in the step being answered
+	LastTerminalKey []byte
 
 	// session
 	step     int
@@ -328,6 +330,7 @@ func (p *PACEState) generalAuthenticate(c *Card, cmd *Cmd) ([]byte, uint16) {
 			return fail(0x6A80)
 		}
 		p.pkMapIFD = pk
+		p.LastTerminalKey = append([]byte{}, dos[0].Val...)
 		if p.NextSKMap != nil {
 			p.skMap, p.NextSKMap = p.NextSKMap, nil
 		} else {
@@ -360,6 +363,7 @@ func (p *PACEState) generalAuthenticate(c *Card, cmd *Cmd) ([]byte, uint16) {
 			return fail(0x6A80)
 		}
 		p.pkDHIFD = pk
+		p.LastTerminalKey = append([]byte{}, dos[0].Val...)
 		if p.NextSKDH != nil {
 			p.skDH, p.NextSKDH = p.NextSKDH, nil
 		} else {
